@@ -68,6 +68,10 @@ def un (w : World) (cfg : Cfg) : Ty → Obj → Obj
       if cfg.gen then .coll .tuple (unT w cfg ts xs) else .coll .tuple xs
   | .map _ kt vt, .dict kvs =>
       if cfg.gen then .dict (mkDict (unKV w cfg kt vt kvs)) else .dict (mkDict (unAnyKV w cfg kvs))
+  -- an instance of a dict subclass: a `Converter` unstructures every mapping into a plain `dict`
+  -- (`gen_unstructure_mapping`: `unstructure_to or dict`), a `BaseConverter` keeps the class (`_unstructure_mapping`)
+  | .map _ kt vt, .mdict d kvs =>
+      if cfg.gen then .dict (mkDict (unKV w cfg kt vt kvs)) else .mdict d (mkDict (unAnyKV w cfg kvs))
   | .opt _, .none => .none
   | .opt t, x => if cfg.gen then un w cfg t x else unAny w cfg x
   | .wrap k t, x =>
@@ -95,6 +99,7 @@ def unAny (w : World) (cfg : Cfg) : Obj → Obj
   | .enumM e m => enumValue w e m
   | .coll ck xs => mkColl (if cfg.gen then ck.anyTo else ck) (unAnyL w cfg xs)
   | .dict kvs => .dict (mkDict (unAnyKV w cfg kvs))
+  | .mdict d kvs => if cfg.gen then .dict (mkDict (unAnyKV w cfg kvs)) else .mdict d (mkDict (unAnyKV w cfg kvs))
   | .inst c fs =>
       if w.isNT c then .coll .tuple (if cfg.gen then unT w cfg (w.ntTys c) (vals fs) else vals fs)
       else if cfg.tupleStrat then .coll .tuple (unFieldsT w cfg (w.fields c) fs)
